@@ -593,6 +593,12 @@ func (e *Enc) loopCtx(li *loopInfo, st *State, over map[*ssa.Phi]Term, extra map
 	c := e.ctx(st, e.init, extra)
 	c.local = func(name string) (CVal, bool) {
 		vs := e.debugVals[name]
+		// hidden loop variables (range index) are addressed by the phi comment
+		for p, t := range over {
+			if p.Comment == name && p.Block() == li.header {
+				return CVal{T: t, GT: p.Type()}, true
+			}
+		}
 		// prefer a phi of this header
 		for _, v := range vs {
 			if p, ok := v.(*ssa.Phi); ok && p.Block() == li.header {
@@ -636,7 +642,13 @@ func (e *Enc) iterCtx(li *loopInfo, st *State, over map[*ssa.Phi]Term) *Ctx {
 
 // ---------- loop havoc ----------
 
+type deferredWrite struct {
+	elemHeap, fieldHeap, fieldSort string
+	base                           Term
+}
+
 type writeSet struct {
+	deferred []deferredWrite
 	coarse  map[string]string // heap name -> sort
 	precise map[string][]Term // heap name -> refs
 	sorts   map[string]string
@@ -706,6 +718,17 @@ func (e *Enc) writeSetOf(instrs []ssa.Instruction, inRegion func(ssa.Instruction
 				name := elemHeapName(xt.Elem())
 				srt := arrSort(arrSort(e.reg.sortOf(xt.Elem())))
 				ws.sorts[name] = srt
+				// slice loaded (inside the region) from a field of an object defined outside it
+				if ld, ok := a.X.(*ssa.UnOp); ok && inLoop(a.X) {
+					if fa, ok := ld.X.(*ssa.FieldAddr); ok && !inLoop(fa.X) {
+						if r, ok := e.vals[fa.X]; ok && r.Loc == nil {
+							pt := fa.X.Type().Underlying().(*types.Pointer).Elem()
+							si := e.reg.structOf(pt)
+							ws.deferred = append(ws.deferred, deferredWrite{elemHeap: name, fieldHeap: fieldHeapName(si, fa.Field), fieldSort: arrSort(si.fields[fa.Field].sort), base: r.T})
+							return
+						}
+					}
+				}
 				if !inLoop(a.X) {
 					if r, ok := e.vals[a.X]; ok && r.Loc == nil {
 						ws.precise[name] = append(ws.precise[name], Term{app("Slice_arr", r.T.S), sInt})
@@ -793,6 +816,17 @@ func (e *Enc) writeSetOf(instrs []ssa.Instruction, inRegion func(ssa.Instruction
 }
 
 func (e *Enc) applyHavoc(ws *writeSet, st *State) {
+	// deferred element writes: precise when the field holding the slice is not itself written
+	for _, d := range ws.deferred {
+		_, c := ws.coarse[d.fieldHeap]
+		_, p := ws.precise[d.fieldHeap]
+		if c || p {
+			ws.coarse[d.elemHeap] = ws.sorts[d.elemHeap]
+			continue
+		}
+		h := st.heapGet(e, d.fieldHeap, d.fieldSort)
+		ws.precise[d.elemHeap] = append(ws.precise[d.elemHeap], e.def("hav_arr", Term{app("Slice_arr", tSelect(h, d.base).S), sInt}))
+	}
 	if ws.alloc {
 		na := e.havoc("alloc", sInt)
 		e.emit("(assert (>= %s %s))", na.S, st.alloc.S)
@@ -800,7 +834,7 @@ func (e *Enc) applyHavoc(ws *writeSet, st *State) {
 	}
 	for _, name := range sortedKeys(ws.coarse) {
 		st.heap[name] = e.havoc(name, ws.coarse[name])
-		if ax := e.heapTyping(name, st.heap[name]); ax != "" {
+		if ax := e.heapTypingAlloc(name, st.heap[name], st.alloc.S); ax != "" {
 			e.emit("%s", ax)
 		}
 	}
@@ -1018,7 +1052,7 @@ func (e *Enc) evalTarget(c *Ctx, t Target) []modRef {
 		}
 		m := modRef{t: t, heapName: elemHeapName(sl.Elem()), heapSort: arrSort(arrSort(e.reg.sortOf(sl.Elem()))), elems: true, ref: e.def("modarr", Term{app("Slice_arr", b.T.S), sInt})}
 		if t.Index != nil {
-			ix := e.def("modidx", Term{app("+", app("Slice_off", b.T.S), c.evalInt(t.Index).S), sInt})
+			ix := e.def("modidx", sidx(b.T, c.evalInt(t.Index)))
 			m.idx = &ix
 		}
 		out = append(out, m)
